@@ -268,6 +268,23 @@ func runC01(c *core.Ctx) {
 					okAll, why = false, "a result is not decided by the test Kind(obj) == reflect.Ptr (other nillable kinds must not count as absent)"
 					continue
 				}
+				// a pointer whose reflect.Value is invalid does not exist (Kind() of the zero Value is Invalid): a defensive
+				// branch for it can never run
+				if isPtr {
+					dead := false
+					for _, cnd := range rcase.Facts {
+						n := core.Normalize(cnd)
+						if call, isC := n.V.(*ssa.Call); isC && !n.True && core.StdCallee(&call.Call) == "reflect.(Value).IsValid" {
+							if vo, isVO := core.Resolve(call.Call.Args[0]).(*ssa.Call); isVO && core.StdCallee(&vo.Call) == "reflect.ValueOf" && core.Unwrap(vo.Call.Args[0]) == ssa.Value(f.Params[0]) {
+								dead = true
+							}
+						}
+					}
+					if dead {
+						nRet--
+						continue
+					}
+				}
 				v := core.Resolve(rcase.Vals[0])
 				valueOfObj := func(x ssa.Value) bool {
 					call, isC := core.Resolve(x).(*ssa.Call)
